@@ -18,9 +18,9 @@ EXPLANATION = (
     "omitted / {} / partial, all directions, texts with XML-special and non-ASCII characters; (b) derived (niced) domains on concrete data shapes with "
     "symbolic widths: single datum, equal times (dots proven at the axis start), unsorted, month ends, leap day, millisecond spans, centuries, "
     "date / time / datetime values, degenerate and huge linear domains; (c) engine options: algorithm x bounds (tight bounds force layers and "
-    "stubs) with the vpsc contract stub. The 'ticks()/nice() never raise' stage for symbolic time spans from 1 ms to 250 years is C16 / C14."
+    "stubs) with the vpsc contract stub; (d) a single-datum timeline exported after ANOTHER default-scale timeline was constructed (dots still proven at the axis start). The 'ticks()/nice() never raise' stage for symbolic time spans from 1 ms to 250 years is C16 / C14."
 )
-BOUNDS = {"quick": dict(data="1..2 (3 in one derived shape)", value_box="times inside the explicit domain, widths in [1,120]", shapes="10 time shapes, 5 linear shapes, 12 engine option sets"), "thorough": dict(data="3 for engine option sets")}
+BOUNDS = {"quick": dict(data="1..2 (3 in one derived shape)", value_box="times inside the explicit domain, widths in [1,120]", shapes="18 time shapes (incl. 3 ms / 2 ms across the epoch / month-end and leap-day latest datum with month and year ticks / Sunday end), 5 linear shapes, 12 engine option sets, 4 two-timeline histories"), "thorough": dict(data="3 for engine option sets")}
 OUTSIDE = ["more than 3 data / clusters > 4 labels", "interpreter recursion depth for > 200 conflicting labels (the statement's own known finding)", "labels without explicit width (LaTeX measurement)", "symbolic time spans in the derived-domain stage (C16/C14 cover ticks()/nice() symbolically)"]
 ASSUMPTIONS = ["floats as exact reals", "datetime modelled by vlib.symdt", "vpsc contract stub in the engine-option configurations", "datetime.date.today() (used for time-of-day data) is whatever the run's date is"]
 
